@@ -6,15 +6,6 @@ every exclusion class). Theorems only.
 import KinModel.Props.C17
 namespace KinModel.Conv
 
-theorem mapM_some {α β : Type} (f : α → Option β) (g : α → β) (l : List α) (h : ∀ a ∈ l, f a = some (g a)) :
-    l.mapM f = some (l.map g) := by
-  induction l with
-  | nil => rfl
-  | cons a rest ih =>
-    have h1 := h a (by simp)
-    have h2 := ih (fun b hb => h b (by simp [hb]))
-    simp [List.mapM_cons, h1, h2]
-
 /-- FromV3Parameter does not panic outside the binary-string class and returns `fromV3Param` -/
 theorem fromV3ParamO_eq {V : Type} (p : Param2 V) (h : noBinary2 (paramSchema2 p) = true) :
     fromV3ParamO [] (toV3Param p) = some (fromV3Param (toV3Param p)) := by
